@@ -980,3 +980,100 @@ def rule_expr_identity(db: ProgramDB) -> List[Instance]:
         out.append(inst("EXPR-IDENTITY", HOLDS, db.fn("rule:refinement"), "engine[nodes are compared by identity]", "no == / != on a node-valued slot"))
     return out
 
+
+# ---------------------------------------------------------------------------------- CONCLUDED-WHEN-KEPT / REFINEMENT-PER-ROW
+def rule_concluded_when_kept(db: ProgramDB) -> List[Instance]:
+    """A selector remembers which conclusions it has drawn (for which values of their variables) so that a later row does not draw them a
+    second time.  It records that when it SELECTS them - but a refinement above can still override the row, and then they were not
+    drawn: what was recorded for the row has to be taken back, otherwise the next assignment the conclusion applies to is taken for a
+    repeat and gets nothing (two refinements of one node, the second with an alternative: the alternative's conclusion is never
+    drawn).  Checked: (a) wherever update_conclusion adds to the record, it also notes the addition for the row being produced;
+    (b) the refinement selector, in the loop over the rows of its right side (the refinement fired), takes back what its left side
+    noted, before it hands the row on."""
+    from ..cfg import CFG
+    out = []
+    cs = db.cls("ConclusionSelector")
+    uc = cs.methods.get("update_conclusion")
+    if uc is None:
+        raise AnalysisError("ConclusionSelector.update_conclusion not found")
+    adds = [c for c in own_calls(uc) if call_attr(c) == "add" and "concluded_before" in unparse(c.func.value)]
+    if not adds:
+        raise AnalysisError("update_conclusion: the record of drawn conclusions is not written")
+    noted = [c for c in own_calls(uc) if call_attr(c) in ("append", "add") and isinstance(c.func.value, ast.Attribute) and unparse(c.func.value.value) == "self"
+             and c.func.value.attr != "_conclusion_" and "concluded_before" not in unparse(c.func.value)
+             and any(unparse(adds[0].args[0]) in unparse(a) for a in c.args)]
+    out.append(inst("CONCLUDED-WHEN-KEPT", HOLDS if noted else VIOLATION, uc, "ConclusionSelector.update_conclusion[what is recorded for the row is noted]",
+                    f"`{unparse(noted[0])[:60]}`" if noted else
+                    "update_conclusion records the conclusions as drawn and keeps no note of what it recorded for the row being produced: it cannot be taken back when a "
+                    "refinement above overrides the row", line=adds[0].lineno))
+    ex = db.cls("ExceptIf")
+    ev = ex.methods.get("_evaluate__")
+    loops = [l for l in own_nodes(ev.node) if isinstance(l, ast.For) and isinstance(l.iter, ast.Call) and unparse(l.iter.func) == "self.right._evaluate__"]
+    if not loops:
+        raise AnalysisError("ExceptIf._evaluate__: the loop over the rows of the refinement was not found")
+    cfg = CFG(ev)
+    for lp in loops:
+        head = next(nd for nd in cfg.nodes if nd.kind == "for" and nd.stmt is lp)
+        body_ids = {id(x) for st_ in lp.body for x in ast.walk(st_)}
+        takes_back = lambda nd: nd.ast is not None and any(isinstance(c, ast.Call) and isinstance(c.func, ast.Attribute) and unparse(c.func.value) == "self.left"
+                                                            and ("take_back" in c.func.attr or "retract" in c.func.attr or "forget" in c.func.attr) for c in ast.walk(nd.ast))
+        ys = [nd for nd in cfg.nodes if nd.has_yield and nd.ast is not None and id(nd.ast) in body_ids]
+        # first iteration: from the loop head (entered from outside) to the yield without the take-back?  the guard `if not right_yielded`
+        # is true on the first row, so its T edge is the one to follow
+        def edge_ok(e):
+            src = cfg.nodes[e.src]
+            if src.kind == "test" and src.ast is not None and any(isinstance(c, ast.Call) and "take_back" in unparse(c) for st_ in getattr(src.stmt, "body", []) for c in ast.walk(st_)):
+                # the guard of the take-back: on the FIRST row of the refinement its flag part holds; what is left is whether the refined branch is a selector at all
+                return True
+            return True
+        bad = None
+        for y in ys:
+            p = cfg.find_path(head.id, lambda nd, y=y: nd.id == y.id, kinds=("n",), blocked=takes_back)
+            if p is not None:
+                # is the only way around the take-back the guard 'the refined branch is not a selector / not the first row'?
+                tests_on_path = [cfg.nodes[e.src] for e in p if cfg.nodes[e.src].kind == "test"]
+                guards_tb = [t for t in tests_on_path if any(isinstance(c, ast.Call) and isinstance(c.func, ast.Attribute) and "take_back" in c.func.attr
+                                                             for st_ in getattr(t.stmt, "body", []) for c in ast.walk(st_))]
+                if not guards_tb:
+                    bad = (y, p)
+        out.append(inst("CONCLUDED-WHEN-KEPT", VIOLATION if bad else HOLDS, ev, "ExceptIf._evaluate__[a refinement that fires takes back what the refined branch recorded]",
+                        "when the refinement fires, the refined branch takes back what it recorded for the row (on the first row of the refinement, if it is a selector)" if not bad else
+                        f"the row of a refinement that fired is handed on (`{bad[0].src()[:40]}`) without the refined branch taking back what it recorded as drawn for this row: a conclusion "
+                        f"selected below and overridden here counts as concluded before, and the next assignment it applies to gets no conclusion", line=bad[0].lineno if bad else ev.lineno))
+    return out
+
+
+def rule_refinement_per_row(db: ProgramDB) -> List[Instance]:
+    """A refinement is asked once per row of the branch it refines, and whether it fires decides for THAT row.  Its condition may suppress
+    duplicates of its own true rows (an or_ inside it): the key it is given for them contains the variables of the refined branch -
+    otherwise the refinement's row for the second assignment that agrees with the first on the variables the conclusions mention is
+    dropped as a repeat, the refinement looks as if it had not fired, and the refined conclusion is drawn as well."""
+    from ..abseval import AbsEval, State, TRUE
+    from ..cfg import CFG
+    out = []
+    ex = db.cls("ExceptIf")
+    m = ex.methods.get("_required_variables_from_child_")
+    if m is None:
+        raise AnalysisError("ExceptIf._required_variables_from_child_ not found")
+    cfg = CFG(m)
+
+    def attr_hook(e, st, ev):
+        if isinstance(e, ast.Attribute) and isinstance(e.value, ast.Name) and e.value.id == "self":
+            if e.attr in ("left", "right"):
+                return ("obj", "#" + e.attr)
+            if e.attr == "_parent_":
+                return ("obj", "truthy")
+        return None
+    child_param = m.positional_params[1]
+    ev = AbsEval(db, m, cfg, attr_hook=attr_hook)
+    IN = ev.run(State({"when_true": TRUE, child_param: ("obj", "#right")}), kinds=("n",))
+    reach = [cfg.nodes[i] for i, sts in IN.items() if sts]
+    adds_left = any(nd.ast is not None and nd.kind == "stmt" and any(isinstance(c, ast.Call) and call_attr(c) in ("update", "add") and c.args
+                    and unparse(c.args[0]) in ("self.left._unique_variables_",) for c in ast.walk(nd.ast)) for nd in reach)
+    out.append(inst("REFINEMENT-PER-ROW", HOLDS if adds_left else VIOLATION, m, "ExceptIf._required_variables_from_child_[true rows of the refinement keyed by the refined branch's variables]",
+                    "the rows of a refinement that fires are told apart by the variables of the branch it refines" if adds_left else
+                    "the true rows of the refinement are keyed by the variables its conclusions mention (and what the parent asks for) only: with refinement(or_(x.c == 2, y.c > 0)) "
+                    "and a conclusion on x, the refinement's row for (x0, y1) is a 'duplicate' of the one for (x0, y0), the refinement seems not to fire and the base conclusion "
+                    "is drawn for an assignment the refinement applies to"))
+    return out
+
